@@ -50,7 +50,7 @@ def catalogue(K, thorough=False):
             S.GRP_BLOCKED(K), S.GRPBATCH(K), S.EMPTYBATCH(K), S.TWOSRC(K), S.GATE_NONE(K), S.DELAY01_LONG(0),
             S.MAINT2_SCRIPT(K), S.GRPIN(K), S.RES3(K), S.BLOCKED_OUT_SCRIPT(K), S.BUFGATE(K),
             S.BATCH_DIRECT(K, pattern=(2, 2, None), size=3, cap=3, sink_cycle=2),
-            S.BATCH(K, size=2, cap=6, sink_cycle=2), S.BLOCK_SCRIPT(K), S.BUDGET(K, budget=0), S.BATCHSLOW(K), S.RES3L(K)]
+            S.BATCH(K, size=2, cap=6, sink_cycle=2), S.BLOCK_SCRIPT(K), S.BUDGET(K, budget=0), S.BATCHSLOW(K), S.RES3L(K), S.LOOP(K), S.GRPPASS(K)]
     return rows
 
 
@@ -274,7 +274,8 @@ class C13(Check):
     def jobs(self, tier):
         K = 2 if tier == 'quick' else 3
         specs = [S.MAINT(K, n=1, probes=3), S.MAINT(K - 1, probes=3), S.FAN(K - 1), S.BLOCKED_OUT(K),
-                 S.MAINT_SCRIPT(K, probes=3), S.MAINT2_SCRIPT(K - 1), S.VALUE0(K - 1), S.BLOCKED_OUT_SCRIPT(K - 1)]
+                 S.MAINT_SCRIPT(K, probes=3), S.MAINT2_SCRIPT(K - 1), S.VALUE0(K - 1), S.BLOCKED_OUT_SCRIPT(K - 1),
+                 S.MAINT3_SCRIPT(K - 1), S.INSTANT(K)]
         # the cycle monitor rides along: a part whose processing time is stretched or cut by an outage shows up there
         jobs = _line_jobs(specs, ['shutdown', 'wakeup', 'cycle'], tier)
         # a machine created while the line is running: its uptime / utilisation count from its creation
